@@ -4,14 +4,18 @@ For each mutant that compiles: does the existing test suite kill it, and does so
 campaign stops at the first one that fires).  A MISSED line is either a mutant that is equivalent with respect to the 18 properties (arguments of
 the logging macros, assertion messages, a larger allocation, dead branches) or a hole in the rules - each one is triaged by hand.
 
-usage: tools/mutation_campaign.py N SEED [ops|ident]     ops: arithmetic / comparison / boolean operators, ceil/floor, small integer literals
+usage: tools/mutation_campaign.py N SEED [ops|ident|misc]     ops: arithmetic / comparison / boolean operators, ceil/floor, small integer literals
                                                          ident: confusable identifiers swapped (fft_size_in/out, chunk_size/max_chunk_size, ..) and
                                                                 single assignment statements deleted
+                                                         misc: method swaps (min/max, floor/round, skip/take, sin/cos, ..), float literals doubled, cast types changed
 Scratch copies and build output live under /tmp and are removed by the tool (the cargo target directories under /tmp/scr/auto are the caller's to remove)."""
 import os, random, re, shutil, subprocess, sys, tempfile, json
 from concurrent.futures import ThreadPoolExecutor
 N, SEED = int(sys.argv[1]), int(sys.argv[2])
 MODE = sys.argv[3] if len(sys.argv) > 3 else "ops"
+METHS = [("min", "max"), ("max", "min"), ("floor", "round"), ("round", "floor"), ("ceil", "round"), ("iter_mut", "iter"), ("skip", "take"), ("take", "skip"),
+         ("chunks", "chunks_exact"), ("saturating_sub", "wrapping_sub"), ("is_empty", "is_some"), ("copy_from_slice", "clone_from_slice"), ("sin", "cos"), ("cos", "sin"),
+         ("len", "capacity"), ("truncate", "resize_with_default"), ("enumerate", "enumerate().skip(1)" )]
 SWAPS = [("fft_size_in", "fft_size_out"), ("chunk_size_in", "chunk_size_out"), ("resample_ratio", "target_ratio"), ("chunk_size", "max_chunk_size"),
          ("wave_in", "wave_out"), ("needed_input_size", "current_buffer_fill"), ("saved_frames", "frames_needed"), ("sample_rate_input", "sample_rate_output"),
          ("POLYNOMIAL_LEN_U", "POLYNOMIAL_LEN_I"), ("min_input_len", "min_output_len"), ("t_ratio", "t_ratio_end"), ("idx", "idx_floor"), ("sinc_len", "oversampling_factor"),
@@ -37,7 +41,7 @@ def candidates():
                     or "warn!" in st or "write!(" in st or "-> " in st and st.endswith("{") and "fn " in st)
             if not skip:
                 code = line.split("//")[0]
-                for pat, rep in (OPS if MODE != "ident" else []):
+                for pat, rep in (OPS if MODE == "ops" else []):
                     for m in re.finditer(pat, code):
                         out.append((f, off + m.start(), off + m.end(), rep, line.strip()[:90]))
                 if MODE == "ident":
@@ -48,7 +52,17 @@ def candidates():
                             out.append((f, off + m.start(), off + m.end(), a_, line.strip()[:90]))
                     if re.match(r"^\s*(self\.\w+|\w+) (=|\+=|-=) [^;{}]*;\s*$", line) and "let " not in line:
                         out.append((f, off, off + len(line), "", line.strip()[:90]))
-                for m in re.finditer(r"(?<![\w.])([0-9]+)(?![\w.])", code) if MODE != "ident" else []:
+                if MODE == "misc":
+                    for a_, b_ in METHS:
+                        for m in re.finditer(r"\.%s\(" % re.escape(a_), code):
+                            out.append((f, off + m.start() + 1, off + m.start() + 1 + len(a_), b_, line.strip()[:90]))
+                    for m in re.finditer(r"(?<![\w.])([0-9]+\.[0-9]+)(?![\w.])", code):
+                        v = float(m.group(1))
+                        out.append((f, off + m.start(), off + m.end(), repr(v * 2.0 if v != 0.0 else 1.0), line.strip()[:90]))
+                    for a_, b_ in (("as usize", "as isize"), ("as isize", "as usize"), ("as f64", "as f32 as f64"), ("as f32", "as f64 as f32")):
+                        for m in re.finditer(re.escape(a_) + r"\b", code):
+                            out.append((f, off + m.start(), off + m.end(), b_, line.strip()[:90]))
+                for m in re.finditer(r"(?<![\w.])([0-9]+)(?![\w.])", code) if MODE == "ops" else []:
                     v = int(m.group(1))
                     if v <= 16:
                         out.append((f, off + m.start(), off + m.end(), str(v + 1), line.strip()[:90]))
@@ -67,7 +81,7 @@ def run(i_m):
         p = os.path.join(repo, f); s = open(p).read()
         orig = s[a:b]
         open(p, "w").write(s[:a] + rep + s[b:])
-        env = dict(os.environ, CARGO_NET_OFFLINE="true", CARGO_TARGET_DIR="/tmp/scr/auto/target_%d" % (i % 3))
+        env = dict(os.environ, CARGO_NET_OFFLINE="true", CARGO_TARGET_DIR="/tmp/scr/auto/targetc%d" % (i % 3))
         t = subprocess.run(["cargo", "test", "--offline", "--lib"], cwd=repo, capture_output=True, text=True, env=env, timeout=900)
         if "error" in t.stderr and "could not compile" in t.stderr:
             return i, "NOCOMPILE", f, orig, rep, line, "", []
